@@ -308,6 +308,15 @@ def local_canon(fn):
                     counts[y.id] = counts.get(y.id, 0) + (1 if isinstance(st, ast.Assign) and isinstance(t, ast.Name) else 2)
         if isinstance(st, ast.Assign) and len(st.targets) == 1 and isinstance(st.targets[0], ast.Name):
             defs[st.targets[0].id] = st
+        # parallel assignment of independent values: `a, b = X, Y` (no target read on the right) defines a and b like two plain assignments
+        if isinstance(st, ast.Assign) and len(st.targets) == 1 and isinstance(st.targets[0], ast.Tuple) and isinstance(st.value, ast.Tuple) \
+                and len(st.targets[0].elts) == len(st.value.elts) and all(isinstance(t_, ast.Name) for t_ in st.targets[0].elts):
+            names_ = {t_.id for t_ in st.targets[0].elts}
+            if not any(isinstance(x, ast.Name) and x.id in names_ for v_ in st.value.elts for x in ast.walk(v_)):
+                for t_, v_ in zip(st.targets[0].elts, st.value.elts):
+                    fake = ast.copy_location(ast.Assign(targets=[t_], value=v_), st)
+                    defs[t_.id] = fake
+                    counts[t_.id] = counts.get(t_.id, 0) - 1  # counted 2 above for the tuple target
     params = set(fn.params()) | {a.arg for a in fn.node.args.kwonlyargs}
     simple = {n: st for n, st in defs.items() if counts.get(n) == 1 and n not in loop_targets and n not in params
               and not any(isinstance(x, (ast.Lambda, ast.Await, ast.Yield, ast.NamedExpr)) for x in ast.walk(st.value))}
@@ -436,3 +445,14 @@ def rule_decorated_object(ctx, rule_id, api, helper, selector, default_by_type):
                "; ".join(probs[:2]), fn.loc())
     except AnalysisError as e:
         raise AnalysisError(f"[{rule_id}] {api}() outside the modelled subset: {e}")
+
+
+def inline_private(ctx, cls, exclude=()):
+    """Tiny `inline_self` resolver: private helpers (`_name`) of the class hierarchy are evaluated in place, except the listed sinks/hooks
+    (those stay observable calls answered by the rule's oracle)."""
+    def resolve(name):
+        if not name.startswith("_") or name.startswith("__") or name in exclude:
+            return None
+        m = ctx.program.lookup_method(cls, name)
+        return m.node if m is not None else None
+    return resolve
